@@ -9,7 +9,10 @@ Per-file decision functions of
 * `InventoryWorkingTree.remove` / `GitWorkingTree.remove` (what happens to a
   file when its path, or a directory above it, is removed),
 * the content decision of `Merge3Merger` for a file both sides may have changed,
-* `uncommit` (touches the branch and the tree's parent pointers only).
+* one directory listing and what the backup action (rename to the first free
+  `name.~k~`, create the new contents under the old name) does to it.
+`uncommit` is not modelled: that it writes nothing below the tree root is checked
+on the real command only (read-only guard of harness/checks/c12.py).
 -/
 namespace BreezyVerif.C12
 
@@ -109,22 +112,34 @@ structure RemoveIn where
   keep : Bool
   force : Bool
   role : Role
-  inBasis : Bool          -- `change.versioned[0]`
+  wtVersioned : Bool      -- `self.path2id(f)` is not None: the path is versioned in the working tree
+  inBasis : Bool          -- `change.versioned[0]` of the record that names the working path (true if no record does)
   changedContent : Bool   -- `change.changed_content and change.kind[1] is not None`
+  deriving DecidableEq, Repr
+
+/-- code variant of `InventoryWorkingTree.remove`: does the deletion step itself refuse to delete a
+path that is not versioned in the working tree (`f in files_to_backup or (not fid and not force)`,
+proposed fix), or does it rely on the `iter_changes` records alone (`false`, the source as it is) -/
+structure RemoveFlags where
+  backupUnversioned : Bool
   deriving DecidableEq, Repr
 
 /-- is the file in `files_to_backup`? -/
 def toBackup (i : RemoveIn) : Bool := !i.keep && !i.force && (!i.inBasis || i.changedContent)
 
 /-- the fate of an existing regular file -/
-def removeFate (i : RemoveIn) : Fate :=
+def removeFateV (fl : RemoveFlags) (i : RemoveIn) : Fate :=
   if i.keep then .kept
   else match i.role with
-    | .selected => if toBackup i then .backup else .gone
+    | .selected =>
+      if toBackup i || (fl.backupUnversioned && !i.wtVersioned && !i.force) then .backup else .gone
     | .nestedUnversioned =>
       -- it stays in its directory; the non-empty directory is renamed to a backup name,
       -- or removed recursively with `force`
       if i.force then .gone else .backup
+
+/-- the source as it is: the `iter_changes` records alone decide -/
+def removeFate (i : RemoveIn) : Fate := removeFateV { backupUnversioned := false } i
 
 /-! ### merge -/
 
@@ -162,16 +177,44 @@ def mergeRecords (i : RecordIn) : Bool := i.otherChangedContent || i.otherAdded
 def afterMerge (r : RecordIn) (editedSince : Bool) (i : RevertIn) : RevertIn :=
   { i with mergeModifiedIsWt := mergeRecords r && !editedSince }
 
-/-! ### uncommit -/
+/-! ### one directory of the tree: what the backup action does to it -/
 
-structure WState where
-  tip : Nat                      -- revno of the branch tip
-  treeParents : List Nat
-  files : List (String × String) -- working tree files
-  deriving DecidableEq, Repr
+/-- the entries of one directory: names with what is stored under them (bytes; any payload) -/
+abbrev Listing (β : Type) := List (String × β)
 
-/-- `uncommit`: the tip moves back, the removed revisions become pending merges; no file is read or written -/
-def uncommit (s : WState) (toRevno : Nat) : WState :=
-  { s with tip := toRevno, treeParents := toRevno :: s.treeParents.filter (· ≠ toRevno) }
+def names {β : Type} (d : Listing β) : List String := d.map Prod.fst
+
+def contents {β : Type} (d : Listing β) : List β := d.map Prod.snd
+
+/-- rename the entry `name` to the first free `name.~k~`, looking at every name of the directory
+(`tt.adjust_path(tt._available_backup_name(name, parent), parent, trans_id)` in `_alter_files`;
+`osutils.rename(path, controldir._available_backup_name(path))` in `WorkingTree.remove`).
+Returns the chosen name and the new listing. -/
+def renameToBackup {β : Type} (d : Listing β) (name : String) : Option (String × Listing β) :=
+  match availableBackupName name (names d) with
+  | none => none
+  | some b => some (b, d.map (fun e => if e.1 = name then (b, e.2) else e))
+
+/-- the `backupAndReplace` action of revert: the working file is renamed to the backup name and the
+target's contents `new` are created under the old name -/
+def backupAndReplace {β : Type} (d : Listing β) (name : String) (new : β) : Option (Listing β) :=
+  (renameToBackup d name).map (fun r => (name, new) :: r.2)
+
+/-- the effect of one changed entry of `_alter_files` on the directory that holds the working file
+`name`; `new` is what the target has for it (used only when `targetKind` is some kind) -/
+def revertDir {β : Type} (fl : Flags) (i : RevertIn) (d : Listing β) (name : String) (new : β) : Option (Listing β) :=
+  match revertAction fl i with
+  | .nothing => some d
+  | .keepInPlace => some d
+  | .deleteContents =>
+    let d' := d.filter (fun e => e.1 ≠ name)
+    some (if i.targetKind.isSome then (name, new) :: d' else d')
+  | .backupAndReplace => backupAndReplace d name new
+
+/-- the effect of `WorkingTree.remove` on the directory that holds the selected file `name` -/
+def removeDir {β : Type} (i : RemoveIn) (d : Listing β) (name : String) : Option (Listing β) :=
+  if i.keep then some d
+  else if toBackup i then (renameToBackup d name).map (·.2)
+  else some (d.filter (fun e => e.1 ≠ name))
 
 end BreezyVerif.C12
